@@ -22,12 +22,7 @@ CN = 16384.0         # backward-error constant of the solver contract: 2^14, > 1
 EPS = F(common.EPS)
 
 # findings of the design/build phase that are not (yet) in KNOWN_FINDINGS.json; see finish_local()
-LOCAL_KNOWN = {
-    'C08:periodic-ncells-eq-degree':
-        'periodic space with ncells == degree (admitted by make_knots): collocation_matrix assigns two basis values '
-        'to one column with a fancy index and keeps only the last, so the interpolant does not reproduce its data '
-        '(patch: notes/patch_C08_periodic_min_cells.diff)',
-}
+LOCAL_KNOWN = {}   # every finding of the build phase has been decided in KNOWN_FINDINGS.json (fixed or known)
 
 
 # ----------------------------------------------------------------------------------------------
